@@ -275,20 +275,30 @@ Proof.
       split; auto. apply nth_set_nth_eq. unfold cap in Hlt. assumption.
 Qed.
 
+Lemma insert_f_S : forall fuel m k index,
+  insert_f key keq hash he ht (S fuel) m k index =
+  match ins_loop key keq (capm (if capm m =? 0 then growm m else m)) (if capm m =? 0 then growm m else m) k index
+          (hs k (capm (if capm m =? 0 then growm m else m))) (hs k (capm (if capm m =? 0 then growm m else m))) with
+  | Some (m', r) => (growm m', r)
+  | None => insert_f key keq hash he ht fuel (growm (if capm m =? 0 then growm m else m)) k index
+  end.
+Proof. reflexivity. Qed.
+
 Lemma insert_spec : forall m k index, tinv m ->
   let '(m', r) := insertm m k index in
   tinv m' /\ ((r = None /\ insert_new m m' k index) \/ insert_old m m' k index r).
 Proof.
-  intros m k index Hinv. unfold insert. simpl insert_f.
+  intros m k index Hinv. unfold insert. rewrite insert_f_S.
   (* the table has a cell to probe *)
   set (m1 := if capm m =? 0 then growm m else m).
   assert (H1 : tinv m1 /\ 0 < capm m1 /\ len m1 = len m /\ forall k i, binds_at m1 k i <-> binds_at m k i).
   { unfold m1. destruct Hinv as [Hp [Hr Hl]]. destruct (Nat.eqb_spec (capm m) 0) as [Hc|Hc].
     - destruct (grow_tinv m Hp Hr ltac:(lia) ltac:(lia)) as [G1 [G2 G3]].
-      repeat split; auto; try apply G3.
-      unfold grow, need_grow. rewrite Hc. simpl.
+      split; [exact G1|]. split; [|split; [exact G2|exact G3]].
+      unfold grow, need_grow. rewrite Hc. change (0 =? 0) with true. cbn [orb].
+      change (Nat.max (2 * 0) 1) with 1.
       destruct (Hgrow m 1 Hp ltac:(lia)) as [_ [_ [G _]]]. rewrite G. lia.
-    - repeat split; auto; try tauto. lia. }
+    - split; [split; [exact Hp|split; [exact Hr|exact Hl]]|]. split; [lia|]. split; [reflexivity|tauto]. }
   destruct H1 as [Hinv1 [Hc1 [Hlen1 Hb1]]].
   destruct (ins_loop_ok m1 k index Hinv1 Hc1) as [m2 [r [E Hpost]]].
   rewrite E. destruct Hinv1 as [Hp1 [Hr1 Hl1]].
@@ -356,6 +366,16 @@ Proof.
   rewrite I1, I2, I3. auto.
 Qed.
 
+Lemma alist_miss' : forall (a : alistk) k,
+  (forall i k' x', nth_error a i = Some (k', x') -> keq k k' = false) ->
+  a_get key val keq a k = None /\ a_remove key val keq a k = a.
+Proof.
+  induction a as [|[k1 x1] t IH]; intros k H; simpl; auto.
+  rewrite (H 0 k1 x1 eq_refl).
+  destruct (IH k) as [I1 I2]. { intros i k' x' Hn. apply (H (S i) k' x' Hn). }
+  rewrite I1, I2. auto.
+Qed.
+
 Lemma alist_hit : forall (a : alistk) k x i k0 x0,
   nth_error a i = Some (k0, x0) -> keq k k0 = true ->
   (forall j k' x', j < i -> nth_error a j = Some (k', x') -> keq k k' = false) ->
@@ -418,7 +438,10 @@ Lemma map_snd_remove_nth : forall (a : alistk) i, map snd (remove_nth i a) = rem
 Proof. induction a; intros [|i]; simpl; auto. f_equal. apply IHa. Qed.
 
 Lemma nth_dec_above : forall r l p, nth p (dec_above r l) 0 = (fun j => if r <? j then j - 1 else j) (nth p l 0).
-Proof. intros r l p. unfold dec_above. change 0 with ((fun j => if r <? j then j - 1 else j) 0) at 1. apply map_nth. Qed.
+Proof.
+  intros r l. unfold dec_above. induction l as [|a t IH]; intros [|p]; simpl; auto;
+    destruct (r <? 0); reflexivity.
+Qed.
 
 (** ---- insert *)
 Lemma v_insert_sim : forall v a k x, R v a ->
@@ -512,7 +535,7 @@ Proof.
   - destruct a; [|discriminate]. simpl. eexists. split; [reflexivity|]. subst rows. exact HR.
   - rewrite Hlen, Nat.eqb_refl. simpl negb. cbv iota.
     destruct (remove_spec m k Hinv) as [[E Hno]|[p [k0 [Hc [Hk E]]]]]; rewrite E.
-    + destruct (alist_miss a k (snd (k, hd_error rows)) (R_miss _ a k HR Hno)) as [_ [_ ->]].
+    + destruct (alist_miss' a k (R_miss _ a k HR Hno)) as [_ ->].
       eexists. split; [reflexivity|]. subst rows. exact HR.
     + set (i0 := nth p (idx m) 0).
       assert (Hb : binds_at m k0 i0) by (exists p; auto).
@@ -521,7 +544,7 @@ Proof.
       replace (length a <=? i0) with false by (symmetry; apply Nat.leb_gt; assumption).
       destruct (alist_hit a k x0 i0 k0 x0 Hn Hk (R_first _ a k k0 i0 HR Hb Hk)) as [_ [_ ->]].
       eexists. split; [reflexivity|]. unfold R. simpl fst. simpl snd.
-      split; [eapply tombed_inv; eauto|]. split; [symmetry; rewrite Hrows; apply map_snd_remove_nth|].
+      split; [eapply tombed_inv; eauto|]. split; [symmetry; apply map_snd_remove_nth|].
       split. { unfold tombed. simpl. rewrite remove_nth_length by assumption. lia. }
       assert (Hlt : p < length (cells m)) by (eapply cellat_key_lt; eauto).
       destruct Hinv as [Hp [Hr Hl]].
@@ -572,7 +595,7 @@ Proof.
       destruct (alist_hit a k x0 i k0 x0 Hn Hk (R_first _ a k k0 i HR Hb Hk)) as [-> _].
       rewrite nth_error_map, Hn. reflexivity.
     + assert (Hno := get_none m k Hinv Eg).
-      destruct (alist_miss a k (snd (k, hd_error rows)) (R_miss _ a k HR Hno)) as [-> _]. reflexivity.
+      destruct (alist_miss' a k (R_miss _ a k HR Hno)) as [-> _]. reflexivity.
 Qed.
 
 Lemma v_has_sim : forall v a k, R v a ->
@@ -587,7 +610,7 @@ Proof.
       destruct (proj1 (HB k0 i) Hb) as [x0 Hn].
       destruct (alist_hit a k x0 i k0 x0 Hn Hk (R_first _ a k k0 i HR Hb Hk)) as [-> _]. reflexivity.
     + assert (Hno := get_none m k Hinv Eg).
-      destruct (alist_miss a k (snd (k, hd_error rows)) (R_miss _ a k HR Hno)) as [-> _]. reflexivity.
+      destruct (alist_miss' a k (R_miss _ a k HR Hno)) as [-> _]. reflexivity.
 Qed.
 
 (** ---- histories *)
@@ -663,20 +686,21 @@ Proof.
     apply (find_none _ _ E) in Hin. simpl in Hin. rewrite Nat.eqb_refl in Hin. discriminate.
 Qed.
 
+Lemma map_seq_keys : forall (a : alistk) (f : nat -> option key) s,
+  (forall i k x, nth_error a i = Some (k, x) -> f (s + i) = Some k) ->
+  map f (seq s (length a)) = map (fun p : key * val => Some (fst p)) a.
+Proof.
+  induction a as [|[k x] t IH]; intros f s H; simpl; auto. f_equal.
+  - rewrite <- (H 0 k x eq_refl). f_equal. lia.
+  - apply IH. intros i k' x' Hn. rewrite <- (H (S i) k' x' Hn). f_equal. lia.
+Qed.
+
 Lemma abs_of_R : forall v a, R v a -> abs key val v = lift key val a.
 Proof.
   intros v a HR. assert (HR' := HR). destruct HR' as [_ [Hrows _]]. unfold abs, lift. rewrite Hrows, map_length.
-  assert (Hk : map (key_at key (fst v)) (seq 0 (length a)) = map (fun p : key * val => Some (fst p)) a).
-  { apply nth_ext with (d := None) (d' := None).
-    - rewrite !map_length, seq_length. reflexivity.
-    - intros n Hn. rewrite map_length, seq_length in Hn.
-      rewrite (nth_indep _ None (key_at key (fst v) 0)) by (rewrite map_length, seq_length; assumption).
-      rewrite map_nth, seq_nth by assumption. simpl.
-      destruct (nth_error a n) as [[k x]|] eqn:E; [|apply nth_error_None in E; lia].
-      rewrite (key_at_R v a n k x HR E).
-      rewrite (nth_indep _ None ((fun p : key * val => Some (fst p)) (k, x))) by (rewrite map_length; assumption).
-      rewrite map_nth. rewrite (nth_error_nth _ _ _ E). reflexivity. }
-  rewrite Hk. clear. induction a as [|[k x] t IH]; simpl; auto. rewrite IH. reflexivity.
+  rewrite (map_seq_keys a (key_at key (fst v)) 0).
+  - clear. induction a as [|[k x] t IH]; simpl; auto. rewrite IH. reflexivity.
+  - intros i k x Hn. simpl. eapply key_at_R; eauto.
 Qed.
 
 (** ---- the refinement theorem (relative to the growth lemma) *)
